@@ -49,6 +49,7 @@ type Target struct {
 
 	files *protoregistry.Files
 	file  protoreflect.FileDescriptor
+	exts  *protoregistry.Types
 }
 
 // ExtVar: a generated proto2 extension descriptor variable (E_…)
@@ -89,7 +90,11 @@ func (t *Target) desc(name string) protoreflect.MessageDescriptor {
 
 // resolver for extensions when decoding with dynamicpb
 func (t *Target) extTypes() *protoregistry.Types {
+	if t.exts != nil {
+		return t.exts
+	}
 	types := &protoregistry.Types{}
+	t.exts = types
 	var walkMsgs func(ms protoreflect.MessageDescriptors)
 	addExts := func(xs protoreflect.ExtensionDescriptors) {
 		for i := 0; i < xs.Len(); i++ {
@@ -321,6 +326,7 @@ func isoCopy(dst, src reflect.Value, wrappers map[string]reflect.Type) {
 type genOpts struct {
 	requiredAlways bool
 	depth          int
+	exts           *protoregistry.Types // extension types that random messages may set (nil: none)
 }
 
 func interestingU64(r *prng.Rng) uint64 { return r.U64Interesting() }
@@ -413,6 +419,21 @@ func randMessage(r *prng.Rng, md protoreflect.MessageDescriptor, o genOpts) *dyn
 		default:
 			m.Set(fd, randScalar(r, fd))
 		}
+	}
+	// proto2 extensions of this message type (scalar, enum, string/bytes, message)
+	if o.exts != nil && md.ExtensionRanges().Len() > 0 {
+		o.exts.RangeExtensionsByMessage(md.FullName(), func(xt protoreflect.ExtensionType) bool {
+			xd := xt.TypeDescriptor()
+			if xd.IsList() || !r.Chance(1, 2) {
+				return true
+			}
+			if xd.Message() != nil {
+				m.Set(xd, protoreflect.ValueOfMessage(subMessage(r, xd.Message(), o)))
+			} else {
+				m.Set(xd, randScalar(r, xd))
+			}
+			return true
+		})
 	}
 	return m
 }
